@@ -245,6 +245,14 @@ def check(case, cache=None):
         return FAIL('explain-raises:%s@%s' % (o[1], o[4].split(':')[-1]), desc + '\nexplain() raised %s: %s at %s' % (o[1], o[3], o[4]), labels)
     expl = spec.explainer.explanations
     E, bad = explained_positions(expl, feed, n)
+    # the explainer also records the intervals requested from every sub-formula (by printed name): measure how often a
+    # temporal operator has to explain two or more disjoint intervals
+    try:
+        if any(len(iv or ()) >= 2 for nm, iv in expl.items()
+               if nm not in feed and nm.lstrip('(').startswith(('once', 'historically', 'eventually', 'always', 'prev', 'next', 'rise', 'fall'))):
+            labels = labels + ['temporal-operator-explains->=2-intervals']
+    except Exception:  # noqa
+        pass
     if want_sat:
         reported = {v: expl.get(v) for v in feed if expl.get(v)}
         if reported:
